@@ -26,6 +26,9 @@ pub const R: u8 = 1;
 pub const READ: u8 = 2;
 pub const SEND_AT: u8 = 3;
 pub const NEVER: u32 = u32::MAX;
+/// second op of a stream writer: Op(REFUSED, k, 0) = k connects to a closed port (they fail and
+/// drop a half set up connection: socket + selector registration) before its own connection
+pub const REFUSED: u8 = 4;
 /// scheduler key on which the canceller waits for the begin of a read
 const CANCEL_KEY: usize = 0x4e43;
 
@@ -35,6 +38,7 @@ pub fn opname(op: u8) -> &'static str {
         R => "read",
         READ => "read-with-timeout",
         SEND_AT => "send",
+        REFUSED => "refused-connect",
         _ => "?",
     }
 }
@@ -147,11 +151,18 @@ fn stream_pair(case: &Case, conn: usize, wa: &Actor, ra: &Actor, states: &States
     let total = wa.ops[0].1 as usize;
     let chunk = (wa.ops[0].2 as usize).max(1);
     let bufsz = (ra.ops[0].1 as usize).max(1);
+    let refused = wa.ops.get(1).filter(|o| o.0 == REFUSED).map(|o| o.1).unwrap_or(0);
     let (we, re) = make_conn(transport, conn);
     let (st1, st2) = (states.clone(), states.clone());
     let w = spawn(wa.ctx, "writer", move || {
         let _dg = DoneGuard(&st1, wi);
         st1.enter(wi, 0, W);
+        for _ in 0..refused {
+            // port 1 of the loopback: privileged, nobody listens there
+            if may::net::TcpStream::connect("127.0.0.1:1").is_ok() {
+                panic!("harness: somebody listens on 127.0.0.1:1");
+            }
+        }
         let mut s = we.get();
         let data: Vec<u8> = (0..total).map(|i| pattern(conn, i)).collect();
         let mut blocked = false;
@@ -591,7 +602,10 @@ pub fn run_netto(case: &Case) -> Outcome {
     let mut conn = 0;
     let mut i = 2;
     while i + 1 < case.actors.len() {
-        let (w, r) = stream_pair(&Case { cfg: vec![0, 0], ..case.clone() }, conn, &case.actors[i], &case.actors[i + 1], &states, i, i + 1, 0);
+        // (odd chunk size: the bystander connects through a listener inside its actors, so
+        // sockets are also created while the case runs)
+        let btr = (case.actors[i].ops[0].2 % 2) as i64;
+        let (w, r) = stream_pair(&Case { cfg: vec![btr, 0], ..case.clone() }, conn, &case.actors[i], &case.actors[i + 1], &states, i, i + 1, 0);
         bys.push((conn, case.actors[i].ops[0].1 as usize, w, r));
         conn += 1;
         i += 2;
@@ -772,11 +786,15 @@ pub fn strategy_net(g: &GenCfg) -> BoxedStrategy<Case> {
         .prop_flat_map(move |(transport, echo)| {
             let conn = if transport <= 2 {
                 // payload up to 512 KiB (several unix socket buffers), bounded number of operations
-                (0u8..2, 0u8..2, prop_oneof![2 => 0u32..4_000, 2 => 4_000u32..120_000, 1 => 200_000u32..524_288], 1u32..65_536, 1u32..131_072)
-                    .prop_map(|(wc, rc, total, chunk, buf)| {
+                (0u8..2, 0u8..2, prop_oneof![2 => 0u32..4_000, 2 => 4_000u32..120_000, 1 => 200_000u32..524_288], 1u32..65_536, 1u32..131_072, prop_oneof![4 => Just(0u32), 1 => 1u32..3])
+                    .prop_map(|(wc, rc, total, chunk, buf, refused)| {
                         let chunk = chunk.max(total / 300 + 1);
                         let buf = buf.max(total / 300 + 1);
-                        (Actor { ctx: wc, role: 0, ops: vec![Op(W, total, chunk)] }, Actor { ctx: rc, role: 1, ops: vec![Op(R, buf, 0)] })
+                        let mut wops = vec![Op(W, total, chunk)];
+                        if refused > 0 {
+                            wops.push(Op(REFUSED, refused, 0));
+                        }
+                        (Actor { ctx: wc, role: 0, ops: wops }, Actor { ctx: rc, role: 1, ops: vec![Op(R, buf, 0)] })
                     })
                     .boxed()
             } else {
@@ -809,8 +827,12 @@ pub fn strategy_netto(g: &GenCfg) -> BoxedStrategy<Case> {
                 };
                 (Just(t), e)
             });
-            let by = (0u8..2, 0u8..2, 0u32..40_000, 1u32..8_192, 1u32..8_192).prop_map(|(wc, rc, total, chunk, buf)| {
-                (Actor { ctx: wc, role: 0, ops: vec![Op(W, total, chunk.max(total / 100 + 1))] }, Actor { ctx: rc, role: 1, ops: vec![Op(R, buf.max(total / 100 + 1), 0)] })
+            let by = (0u8..2, 0u8..2, 0u32..40_000, 1u32..8_192, 1u32..8_192, prop_oneof![3 => Just(0u32), 1 => 1u32..3]).prop_map(|(wc, rc, total, chunk, buf, refused)| {
+                let mut wops = vec![Op(W, total, chunk.max(total / 100 + 1))];
+                if refused > 0 {
+                    wops.push(Op(REFUSED, refused, 0));
+                }
+                (Actor { ctx: wc, role: 0, ops: wops }, Actor { ctx: rc, role: 1, ops: vec![Op(R, buf.max(total / 100 + 1), 0)] })
             });
             (Just((transport, cancel, cdelay, rctx, pctx, succ, aim)), proptest::collection::vec(op, 1..=4), proptest::collection::vec(by, 0..=2), gen::config(&g2), prop_oneof![3 => gen::schedule(&g2, false), 1 => gen::schedule(&g2, true)])
         })
